@@ -86,7 +86,25 @@ func validateDeactivateRequest(info *DeactivateRequestInfo) error {
 		return errors.New("missing reveal value")
 	}
 
+	if err := validateAnchoringWindow(info.AnchorFrom, info.AnchorUntil); err != nil {
+		return err
+	}
+
 	return validateSigner(info.Signer)
+}
+
+// validateAnchoringWindow: the signed data is written in JCS, where every number is a double. A bound beyond 2^53
+// would be signed as another number: a different window than asked for, or one the parser cannot read as an integer.
+func validateAnchoringWindow(from, until int64) error {
+	const maxExact = int64(1) << 53 //nolint:mnd
+
+	for _, bound := range []int64{from, until} {
+		if bound > maxExact || bound < -maxExact {
+			return fmt.Errorf("anchoring time %d cannot be written exactly", bound)
+		}
+	}
+
+	return nil
 }
 
 func validateSigner(signer Signer) error {
